@@ -9,6 +9,14 @@ CLAIMED = {
             'level': 'exhaustive over the enumerated rule instances (T-ORACLE rows/formats for RV32I and MSP430 core, '
                      'T-LEN per CPU, T-CPU rows); narrow: encodings of the two oracle ISAs and length agreement only',
             'note': NOTE},
+    'C03': {'technique': 'symbolic byte-lane provenance, exhaustive evaluation of extracted checksum expressions, CFG must-pass queries, dispatch tables',
+            'level': 'exhaustive over every (de)serialiser site, writer loop, dispatch entry and page test in the current source; '
+                     'partial: lanes/lengths/checksums/dispatch/no-drop, not full format conformance',
+            'note': NOTE},
+    'C08': {'technique': 'interval analysis (abstract interpretation) of decoder return values and range-loop increments',
+            'level': 'exhaustive over every return of the 59 single-instruction decoders and every range loop; lower '
+                     'bounds the interval domain cannot establish are listed as observations (not decided)',
+            'note': NOTE},
     'C12': {'technique': 'CFG path search after every diagnostic, discarded-result dataflow, abstract interpretation of main()',
             'level': 'exhaustive over every diagnostic call site, every call to an error-returning function and every '
                      'path of main() reachable from naken_asm; path-insensitive to infeasible branches except the modelled idioms',
